@@ -655,6 +655,10 @@ class FindModuleCache:
                 continue
 
             if self.fscache.isdir(subpath):
+                if not name.isidentifier():
+                    # Not importable as a submodule (e.g. "foo-stubs"); find_module would map it
+                    # onto another module's file.
+                    continue
                 # Only recurse into packages
                 if (self.options and self.options.namespace_packages) or (
                     self.fscache.isfile(os_path_join(subpath, "__init__.py"))
